@@ -38,6 +38,7 @@ def run(chk: Check) -> None:
     run_meta_ex_after_meta(chk, ix)
     run_sqlite_write(chk, ix)
     run_late_blockers_surface(chk, ix)
+    run_snapshot_last(chk, ix)
 
     # ---------------- R04.1
     r1 = chk.rule("R04.1", "file store publishes atomically: write to a fresh temporary, os.replace onto the final name, OSError => return False; no other writer of cache records", floor=3)
@@ -683,3 +684,10 @@ def run_late_blockers_surface(chk: Check, ix) -> None:
             r9.ok(key, d.loc(s.stmt))
         else:
             r9.violation(key, d.loc(s.stmt), f"{nm} reports its failed write with blocker=True, but from here dispatch returns without anybody testing Errors.is_blockers(): the message is never printed and the exit status is 0")
+
+
+def run_snapshot_last(chk: Check, ix) -> None:
+    """R04.10: the build-wide record that vouches for the module records is replaced after them."""
+    from .c02 import snapshot_written_after_processing
+    r10 = chk.rule("R04.10", "the plugins snapshot vouches for every module record of the cache directory (a record is trusted when the stored snapshot equals the current plugins). A run that is killed must not leave a snapshot that vouches for records it has not rewritten yet, so dispatch() writes it only after process_graph, on every path (the R02.15 query, here for kill points instead of blocking errors)", floor=1)
+    snapshot_written_after_processing(r10, ix)
